@@ -304,6 +304,11 @@ func populateStruct(originalVal reflect.Value, vs []FieldValueTuple, inputIndex 
 				}
 				setVal = setVal.Convert(ptrTypes[i])
 			}
+			if len(ptrTypes) == 0 {
+				// a struct held by value (not pointerified: a field
+				// of a struct behind a pointer to a pointer)
+				setVal = setVal.Elem()
+			}
 			originalVal.Set(setVal)
 		}
 		return inputIndex, anyChildSet, nil
